@@ -7,6 +7,11 @@ from vf import gen
 from vf.core import Clause, Property, Violation
 from vf.osk import IS_TM, eff_limit, eff_tau, mk_model, mk_teams, outcome_values, rate
 from vf.refmodel import compare, reference
+from vf.league import league_class
+from vf.stateful import machine_factory, replayer
+
+LEAGUE = league_class("C02League", ("slots", "ref"), "C02")
+
 
 
 def check_c02(case, ctx):
@@ -120,6 +125,12 @@ PROPERTY = Property(
         Clause(name="slot-correspondence", strategy=cases(), check=check_c02, quick=5000, thorough=100000,
                rule="one rate() call on players with pairwise distinct (mu, sigma), unique names and recorded ids; non-trivial = rank vector not already sorted "
                     "AND two teams of equal size with different member values"),
+        Clause(name="league-slot-correspondence", kind="stateful", machine=machine_factory(LEAGUE), check=replayer(LEAGUE),
+               quick=320, thorough=6000, steps_quick=30, steps_thorough=120,
+               rule="rule-based machine: a league of 5-12 named rating objects on one model, games on drawn partitions, returned or passed-in "
+                    "objects fed back, the returned list itself rated again, predictions interleaved; after every game: shape, id and name per "
+                    "slot, no duplicates, passed-in objects all untouched or all equal to the returned ones, per-slot value = reference "
+                    "posterior of the player passed there; non-trivial = >= 8 games with some player in >= 4"),
     ],
     rule="generated games with all-distinct players; oracle: shape, id/name per slot, no duplicates, per-slot value = mpmath posterior of that very player, "
          "bit-identical agreement with the pre-sorted presentation, passed-in objects all untouched or all equal to the returned ratings; "
